@@ -22,7 +22,7 @@ PLANS['C12'] = [('sem', W(60000, 4000000, batch=1000)),
 
 # C16: focused delivery histories, then end-to-end non-seekable downloads
 PLANS['C16'] = [('defer', W(60000, 3000000, batch=1000)),
-                ('world', W(12000, 500000, gen_prop='C02'))]
+                ('world', W(12000, 500000, gen_prop='C16'))]
 PLANS['C13'] = [('bw', W(60000, 3000000, batch=1000)),
                 ('world', W(12000, 400000, gen_prop='C13'))]
 PLANS['C19'] = [('pp', W(40000, 2000000, batch=500))]
